@@ -128,13 +128,13 @@ func vRemove(name string) error {
 		vCrashPoint("remove.after")
 		return nil
 	}
-	return os.ErrNotExist
+	return vIOError{"remove: no such file"}
 }
 
 func vMmapOpen(name string, flag int, mode os.FileMode) (*mmap.File, error) {
 	f, ok := vFS[name]
 	if !ok || !f.exists {
-		return nil, os.ErrNotExist
+		return nil, vIOError{"open: no such file"}
 	}
 	mf := &mmap.File{Data: f.data}
 	vMapNames[mf] = name
@@ -162,3 +162,9 @@ func vOpen(dir string, opt Options) (*Log, error) {
 	}
 	return &Log{dir: dir, opt: opt, first: first, last: last}, nil
 }
+
+// vIOError: the os package's init is not run by the engine (os.ErrNotExist would be nil), so the ghost file system
+// returns its own error values.
+type vIOError struct{ s string }
+
+func (e vIOError) Error() string { return e.s }
